@@ -28,7 +28,7 @@ from sqvm.builtins import Builtins
 from sqvm.shapes import shapes, instantiate, describe, has_opaque, ShapeError
 from sqvm.prove import Prover, StopJob
 from sqvm.corpus import std_sources, example_sources, test_sources, spec_sources
-from sqvm.gen_calls import programs as gen_call_programs
+from sqvm.gen_calls import programs as gen_call_programs, generic_programs
 from sqvm.gen_tail import programs as gen_tail_programs
 
 PROP = "C01"
@@ -317,6 +317,8 @@ def main():
     gen = gen_call_programs()
     if tier == "quick":
         gen = [g for g in gen if "/dispatch" in g["name"] or "/a_or_b/" in g["name"]]
+    # user-defined generic functions called with arguments of related static types
+    gen = gen + generic_programs()
     for g in gen:
         jobs.append((g["name"], g["src"], timeout_ms, rep.seed, 4, shape_budget_s,
                      g["defs"] + "f = " + g["fn"] + ",\n{LIT} f"))
